@@ -3,9 +3,12 @@ package main
 import (
 	"encoding/json"
 	"fmt"
+	"github.com/XiXi-2024/xixi-kv/verifrt/iorec"
 	"io"
 	"os"
 	"os/exec"
+	"path/filepath"
+	"strings"
 	"syscall"
 )
 
@@ -321,6 +324,12 @@ func c02Tasks(tier string) []Task {
 			return v
 		}
 		tasks = append(tasks, seqTasks("C02", []seqLevel{{Name: "fault-d3", Cfgs: c01FaultCfgs(), Keys: keysAB, Alpha: c01FaultAlphabet, Depth: 3, Dev: 3, Run: run}})...)
+		stagingAlpha := func(c Cfg) []Op {
+			return []Op{{K: "put", Key: "a", VC: "S"}, {K: "put", Key: "b", VC: "L"},
+				{K: "batch", Sub: []Op{{K: "put", Key: "a", VC: "L"}, {K: "put", Key: "b", VC: "L"}, {K: "put", Key: "a", VC: "S"}}},
+				{K: "batch", Sub: []Op{{K: "put", Key: "a", VC: "S"}, {K: "del", Key: "b"}, {K: "put", Key: "b", VC: "S"}}}}
+		}
+		tasks = append(tasks, seqTasks("C02", []seqLevel{{Name: "batch-staging-fault-d3", Cfgs: []Cfg{defaultCfg}, Keys: keysAB, Alpha: stagingAlpha, Depth: 3, Dev: 3, Run: runBatchStagingFault}})...)
 	}
 	// the same directory under both spellings of its path (with / without a trailing separator), merges in between
 	{
@@ -497,4 +506,96 @@ func init() {
 			seqReplayMain(raw, makeRunC02(r.Extra.Writer, r.Extra.Reader, c02Readers("quick")))
 		},
 	})
+}
+
+// runBatchStagingFault: a batch whose STAGING call fails (an overflow flush or its rotation refused by the device) leaves
+// the caller with a half-staged batch it can only Commit (there is no rollback). Whatever that Commit makes of it, the
+// mapping the live database then shows is the mapping the next restart shows. Every I/O call of the whole batch
+// operation fails once.
+func runBatchStagingFault(cfg Cfg, keys []string, ops []Op, res *TaskResult) *Violation {
+	hist, last := ops[:len(ops)-1], ops[len(ops)-1]
+	if last.K != "batch" {
+		return nil
+	}
+	n := -1
+	for k := -1; n < 0 || k < n; k++ {
+		beginExecution()
+		w := NewWorld(cfg, keys)
+		res.Execs++
+		if err := w.Open(); err != nil {
+			w.Destroy()
+			return nil
+		}
+		ok := true
+		for _, op := range hist {
+			if ar := w.Apply(op); ar.Err != nil || w.Dead {
+				ok = false
+				break
+			}
+			res.Transitions++
+		}
+		if !ok {
+			w.Destroy()
+			return nil
+		}
+		calls, injectedAt := 0, ""
+		iorec.Before = func(op, path, path2 string, nn int64) error {
+			if op == "read" {
+				return nil
+			}
+			calls++
+			if calls-1 == k {
+				injectedAt = fmt.Sprintf("call #%d %s %s", k, op, filepath.Base(path))
+				return &os.PathError{Op: op, Path: path, Err: syscall.EIO}
+			}
+			return nil
+		}
+		ar := w.Apply(last) // (applyBatch commits what is staged when a staging call fails: the only way to release the lock)
+		iorec.Before = nil
+		res.Transitions++
+		if k < 0 {
+			n = calls
+			w.Destroy()
+			continue
+		}
+		fail := func(clause, detail string) *Violation {
+			w.Destroy()
+			sig := clause
+			if ar.Err != nil && !strings.HasPrefix(ar.Err.Error(), "Batch.") {
+				// the failing call was inside Commit itself, after earlier pieces of the batch had been flushed and applied
+				// to the index (open finding KF-6); a failing STAGING call has the plain signature
+				sig += ":commit-after-flushed-pieces"
+			}
+			return &Violation{Prop: "C02", Clause: clause, Sig: sig, Detail: fmt.Sprintf("cfg=%s trace=[%s] with %s failing during the batch (staging calls and Commit)\n%s", cfg, traceString(ops), injectedAt, detail),
+				Replay: mustJSON(seqReplay{Engine: "batch-staging-fault", Prop: "C02", Cfg: cfg, Keys: keys, Ops: ops, Trace: traceString(ops), Extra: map[string]int{"fault_at": k}})}
+		}
+		if errClass(ar.Err) == "panic" || w.Dead || w.DB == nil {
+			res.count("panicked_or_dead_not_judged_here", 1)
+			w.Destroy()
+			continue
+		}
+		res.Evals++
+		res.count("faults_injected", 1)
+		d1 := w.DumpDB()
+		if err := w.Close(); err != nil {
+			w.Destroy()
+			continue
+		}
+		if err := w.Open(); err != nil {
+			return fail("staging-fault-restart", fmt.Sprintf("the batch returned %s; after a clean Close, Open fails: %s", errClass(ar.Err), panicDetail(err)))
+		}
+		d2 := w.DumpDB()
+		if d1.Err == "" && !dumpEqual(d1, d2) {
+			v := fail("staging-fault-live-differs-from-restart", fmt.Sprintf("the batch returned %s\nlive mapping afterwards: %s\nafter the restart:       %s", errClass(ar.Err), d1, d2))
+			if isKnown(v) {
+				addViolation(res, v)
+				res.count("known_suppressed", 1)
+				continue
+			}
+			return v
+		}
+		w.Destroy()
+	}
+	res.Nontrivial++
+	return nil
 }
